@@ -8,6 +8,6 @@ CONSTANTS Depth = 2
           FullFirst = FALSE
           Starts = {"two"}
           MaxRow = 3
-          TwoCols = 2
+          TwoCols = 1
 INVARIANT TypeOK
 INVARIANT SpecSane
